@@ -48,6 +48,9 @@ INVARIANTS %(invs)s
 
 ALL_SIGNALS = ['logs', 'metrics', 'traces', 'profiles']
 PROPS = 'TypeOK AckedReadable RetryIdempotentEnough RefusedResidue NoPhantom SearchImpliesFetch NoCrossSignal AckedStored'
+# what the tree does today (a repaired deviation is switched off here and stays in the model as a mutation)
+CODED_CSBI = False   # cache set before the insert: repaired by fix eb377cd (a failed request forgets the keys it set)
+CODED_CKIT = False   # cache key ignores the sample type: repaired by the fix: commit recorded in known_findings.json
 HOLD_AS_CODED = 'TypeOK RefusedResidue NoPhantom SearchImpliesFetch NoCrossSignal AckedStored'
 ENDPOINTS = ['loki_query_range', 'loki_series', 'loki_label_values', 'prom_query_range', 'prom_series', 'prom_label_values',
              'tempo_by_id', 'tempo_search_tags', 'tempo_traceql', 'tempo_tag_values',
@@ -183,18 +186,20 @@ def run(tier):
         jobs = []   # (name, cfg text, expectation, timeout)
         # the design (both deviations off): every property holds, per signal group
         jobs.append(('lm_design', cfg_text(lm, s2, 1, 2, False, False, PROPS), 'holds', 900))
-        jobs.append(('tr', cfg_text(['traces'], s2 if quick else s3, 1 if quick else 2, 2, True, True, PROPS, faults=2, retries=2), 'holds', 900))
-        jobs.append(('pf', cfg_text(['profiles'], s3, 2, 3, True, True, PROPS, faults=2, retries=2), 'holds', 900))
+        jobs.append(('tr', cfg_text(['traces'], s2 if quick else s3, 1 if quick else 2, 2, CODED_CSBI, CODED_CKIT, PROPS, faults=2, retries=2), 'holds', 900))
+        jobs.append(('pf', cfg_text(['profiles'], s3, 2, 3, CODED_CSBI, CODED_CKIT, PROPS, faults=2, retries=2), 'holds', 900))
         # each deviation alone: TLC finds the counterexample (exported with the view, replayed on the real code below)
-        jobs.append(('lm_csbi', cfg_text(lm, s2, 1, 2, True, False, 'AckedReadable RetryIdempotentEnough', export=True), 'cache-set-before-insert', 900))
-        jobs.append(('lm_ckit', cfg_text(lm, s2, 1, 2, False, True, 'AckedReadable RetryIdempotentEnough', export=True), 'cache-key-ignores-type', 900))
+        jobs.append(('lm_csbi', cfg_text(lm, s2, 1, 2, True, False, 'AckedReadable RetryIdempotentEnough', export=True),
+                     'cache-set-before-insert' if CODED_CSBI else 'model-mutation', 900))
+        jobs.append(('lm_ckit', cfg_text(lm, s2, 1, 2, False, True, 'AckedReadable RetryIdempotentEnough', export=True),
+                     'cache-key-ignores-type' if CODED_CKIT else 'model-mutation', 900))
         # model mutation: a reader without type filters violates NoCrossSignal (the invariant is not vacuous)
         jobs.append(('lm_notype', cfg_text(lm, s2, 1, 2, False, False, 'NoCrossSignal', rft=False), 'model-mutation', 900))
         if not quick:
             jobs.append(('lm_design_3slots', cfg_text(lm, s3, 2, 2, False, False, PROPS), 'holds', 2400))
             jobs.append(('lm_design_3pushes', cfg_text(lm, s2, 1, 3, False, False, PROPS), 'holds', 2400))
-            jobs.append(('lm_coded', cfg_text(lm, s3, 2, 2, True, True, HOLD_AS_CODED), 'holds', 2400))
-            jobs.append(('tr_3pushes', cfg_text(['traces'], s3, 2, 3, True, True, PROPS, faults=2, retries=2), 'holds', 2400))
+            jobs.append(('lm_coded', cfg_text(lm, s3, 2, 2, CODED_CSBI, CODED_CKIT, HOLD_AS_CODED), 'holds', 2400))
+            jobs.append(('tr_3pushes', cfg_text(['traces'], s3, 2, 3, CODED_CSBI, CODED_CKIT, PROPS, faults=2, retries=2), 'holds', 2400))
 
         def mc(job):
             name, text, expect, to = job
@@ -226,7 +231,7 @@ def run(tier):
         # ------------------------------------------------------------------ histories of the model as coded
         nb = 24 if quick else 320
         model3 = {'slots_per_day': 2, 'keys': [1, 2], 'slots': s3, 'signals': ALL_SIGNALS}
-        sim = run_tlc(sd, 'coded_sim', cfg_text(ALL_SIGNALS, s3, 2, 4, True, True, HOLD_AS_CODED, guided=True, export=True, queries=2, faults=2,
+        sim = run_tlc(sd, 'coded_sim', cfg_text(ALL_SIGNALS, s3, 2, 4, CODED_CSBI, CODED_CKIT, HOLD_AS_CODED, guided=True, export=True, queries=2, faults=2,
                                                 retries=2), workers=1, timeout=900, simulate={'num': nb, 'file': True}, depth=26, seed=seed)
         try:
             if sim['violated']:
@@ -260,7 +265,7 @@ def run(tier):
         rec = json.load(open(ro))
         if r.returncode != 0 or rec.get('infra'):
             raise vlib.Infra('x02 record: %s %s' % (rec.get('infra'), (r.stderr or '')[-800:]))
-        tcfg = cfg_text(ALL_SIGNALS, [0, 1, 2, 3], 2, 10 ** 6, True, True, 'TypeOK NoPhantom SearchImpliesFetch NoCrossSignal AckedStored', queries=10 ** 6,
+        tcfg = cfg_text(ALL_SIGNALS, [0, 1, 2, 3], 2, 10 ** 6, CODED_CSBI, CODED_CKIT, 'TypeOK NoPhantom SearchImpliesFetch NoCrossSignal AckedStored', queries=10 ** 6,
                         faults=10 ** 6, retries=10 ** 6, clears=10 ** 6, lost=10 ** 6, bad=10 ** 6, spec='TraceSpec', tail='CONSTRAINT Accept\n%(diag)s')
         ok, detail, tst = vlib.validate_trace(SPECDIR, 'Trace_Qryn.tla', tcfg, rt, timeout=2400)
         lines = open(rt).read().splitlines()
